@@ -7,7 +7,7 @@ Open Scope Z_scope.
 Definition kcode (k : kclass) : Z :=
   match k with
   | KNone => 0 | KSelfTarget => 1 | KNamedCycle => 2 | KStarUnsat => 3
-  | KStarReplace => 4 | KAfterOverwritten => 5 | KSelfSilent => 6 | KStaleRequest => 7 | KReplaceRequests => 8
+  | KStarReplace => 4 | KAfterOverwritten => 5 | KSelfSilent => 6 | KStaleRequest => 7
   end.
 
 (* class of the first in-domain call that puts the book into a known-finding class *)
